@@ -110,11 +110,11 @@ public:
                 regs.ipv = 1;
             }
 
-            u16 opcode = mem.ProgramRead((regs.pc++) | (regs.prpage << 18));
+            u16 opcode = mem.ProgramRead((regs.pc++) | ((u32)regs.prpage << 18));
             auto& decoder = decoders[opcode];
             u16 expand_value = 0;
             if (decoder.NeedExpansion()) {
-                expand_value = mem.ProgramRead((regs.pc++) | (regs.prpage << 18));
+                expand_value = mem.ProgramRead((regs.pc++) | ((u32)regs.prpage << 18));
             }
 
             if (regs.rep) {
